@@ -249,6 +249,11 @@ def run(ctx):
     nan_guard = any(isinstance(n, ast.If) and "np.isnan(wind[0]" in ast.unparse(n.test) for n in own_walk(f.node))
     ctx.expect(ok and nan_guard, "R10.3", "_roughness_estimate[missing stays missing]",
                "a NaN wind speed and any solver exception give NaN for that point", f.loc())
+    # ---- R10.5 bracket bookkeeping of the Newton/secant/bisection solver the Janssen estimate runs on
+    from ..pairs import paired_update_rule
+    fnr = p.get_function(NR)
+    nb, nq = paired_update_rule(ctx, "R10.5", fnr, "root_bounds", "func_at_bounds", "iterates", "func_evals", "function", 4)
+    ctx.require_count("R10.5", 12)
     envres.check_ext_used(ctx, it, "R10.4", "roughness")
     ctx.absorb(it)
     ctx.absorb(it2)
